@@ -190,11 +190,21 @@ class VariablesCollector(ValidationVisitor):
             self._fragment_variable_usages[self._fragment].append((var, usage))
 
     def _flatten_fragments(self):
-        for parent, children in self._fragment_fragments.items():
-            for child in deduplicate(children):
-                for op in self._op_fragments.keys():
-                    if parent in self._op_fragments[op]:
-                        self._op_fragments[op].append(child)
+        # Transitive closure of the fragments spread by each operation,
+        # independent of the order in which fragments are defined.
+        for op in list(self._op_fragments.keys()):
+            fragments = self._op_fragments[op]
+            seen = set(fragments)
+            queue = list(fragments)
+            while queue:
+                parent = queue.pop(0)
+                if parent not in self._fragment_fragments:
+                    continue
+                for child in self._fragment_fragments[parent]:
+                    if child not in seen:
+                        seen.add(child)
+                        fragments.append(child)
+                        queue.append(child)
 
     def leave_document(self, _):
         self._flatten_fragments()
